@@ -340,7 +340,7 @@ def instrument(rec):
     saved[(Environment, "can_submit_order")] = orig_can
 
     def can_w(self, order):
-        item = {"k": "O", "order": order_in(order), "depth": rec.depth, "passed": None, "submitted": False}
+        item = {"k": "O", "order": order_in(order), "depth": rec.depth, "passed": None, "submitted": False, "dt": Environment.get_instance().calendar_dt}
         rec.inputs.append(item)
         item["passed"] = bool(orig_can(self, order))
         return item["passed"]
